@@ -267,7 +267,8 @@ theorem delete_answer {pp : PP} (P : PlainObj pp) (A1 A2 : List Bytes) (rc : Byt
       (∀ k, (k + 1 < 6 ∨ 7 < k) → get16 P'.hdr k = get16 P.hdr k) ∧
       pp'.ednsCount = pp.ednsCount ∧ pp'.extRcode = pp.extRcode ∧ pp'.ednsVersion = pp.ednsVersion ∧
       pp'.extFlags = pp.extFlags ∧ pp'.maxPayload = pp.maxPayload ∧
-      pp'.offsetEdns = (if optLt c.offset pp.offsetEdns then pp.offsetEdns.map (fun x => shiftNat x (-(Int.ofNat rc.length))) else pp.offsetEdns) := by
+      pp'.offsetEdns = (if optLt c.offset pp.offsetEdns then pp.offsetEdns.map (fun x => shiftNat x (-(Int.ofNat rc.length))) else pp.offsetEdns) ∧
+      pp'.cached = none := by
   have hlen := P.len
   have hAl : P.A.length = A1.length + A2.length + 1 := by rw [hsplit]; simp; omega
   have hAf : P.A.flatten.length = A1.flatten.length + rc.length + A2.flatten.length := by rw [hsplit]; simp; omega
@@ -307,7 +308,7 @@ theorem delete_answer {pp : PP} (P : PlainObj pp) (A1 A2 : List Bytes) (rc : Byt
   rw [P.hca] at hg6
   refine ⟨_, ⟨hdr', P.q4, P.qls, A1 ++ A2, P.N, P.R, P.o2, P.o3, P.o4, hh', ?_, P.hgq, P.hq4, P.hcl,
     ?_, P.hN, P.hR, by rw [hg6]; simp; omega, ?_, ?_, ?_, ?_, ?_, ?_, ?_, ?_, ?_⟩,
-    hrun, rfl, rfl, rfl, rfl, rfl, hgo, ?_, ?_, ?_, ?_, ?_, ?_⟩
+    hrun, rfl, rfl, rfl, rfl, rfl, hgo, ?_, ?_, ?_, ?_, ?_, ?_, ?_⟩
   · rw [hgo 4 (by omega)]; exact P.hqd
   · have := P.hA
     rw [hsplit] at this
@@ -345,6 +346,7 @@ theorem delete_answer {pp : PP} (P : PlainObj pp) (A1 A2 : List Bytes) (rc : Byt
   · rw [f12]; rfl
   · rw [f13]; rfl
   · rw [f8]; rfl
+  · rw [f3]
 
 end Dns
 
@@ -362,7 +364,8 @@ theorem delete_authority {pp : PP} (P : PlainObj pp) (N1 N2 : List Bytes) (rc : 
       (∀ k, (k + 1 < 8 ∨ 9 < k) → get16 P'.hdr k = get16 P.hdr k) ∧
       pp'.ednsCount = pp.ednsCount ∧ pp'.extRcode = pp.extRcode ∧ pp'.ednsVersion = pp.ednsVersion ∧
       pp'.extFlags = pp.extFlags ∧ pp'.maxPayload = pp.maxPayload ∧
-      pp'.offsetEdns = (if optLt c.offset pp.offsetEdns then pp.offsetEdns.map (fun x => shiftNat x (-(Int.ofNat rc.length))) else pp.offsetEdns) := by
+      pp'.offsetEdns = (if optLt c.offset pp.offsetEdns then pp.offsetEdns.map (fun x => shiftNat x (-(Int.ofNat rc.length))) else pp.offsetEdns) ∧
+      pp'.cached = none := by
   have hlen := P.len
   have hNl : P.N.length = N1.length + N2.length + 1 := by rw [hsplit]; simp; omega
   have hNf : P.N.flatten.length = N1.flatten.length + rc.length + N2.flatten.length := by rw [hsplit]; simp; omega
@@ -403,7 +406,7 @@ theorem delete_authority {pp : PP} (P : PlainObj pp) (N1 N2 : List Bytes) (rc : 
   rw [P.hcn] at hg6
   refine ⟨_, ⟨hdr', P.q4, P.qls, P.A, N1 ++ N2, P.R, P.o2, P.o3, P.o4, hh', ?_, P.hgq, P.hq4, P.hcl,
     P.hA, ?_, P.hR, ?_, by rw [hg6]; simp; omega, ?_, ?_, ?_, ?_, ?_, ?_, ?_, ?_⟩,
-    hrun, rfl, rfl, rfl, rfl, rfl, hgo, ?_, ?_, ?_, ?_, ?_, ?_⟩
+    hrun, rfl, rfl, rfl, rfl, rfl, hgo, ?_, ?_, ?_, ?_, ?_, ?_, ?_⟩
   · rw [hgo 4 (by omega)]; exact P.hqd
   · have := P.hN
     rw [hsplit] at this
@@ -438,6 +441,7 @@ theorem delete_authority {pp : PP} (P : PlainObj pp) (N1 N2 : List Bytes) (rc : 
   · rw [f12]; rfl
   · rw [f13]; rfl
   · rw [f8]; rfl
+  · rw [f3]
 
 end Dns
 
@@ -456,7 +460,8 @@ theorem delete_additional {pp : PP} (P : PlainObj pp) (R1 R2 : List Bytes) (rc :
       pp'.ednsCount = (if t == TYPE_OPT then 0 else pp.ednsCount) ∧ pp'.extRcode = (if t == TYPE_OPT then none else pp.extRcode) ∧
       pp'.ednsVersion = (if t == TYPE_OPT then none else pp.ednsVersion) ∧
       pp'.extFlags = (if t == TYPE_OPT then none else pp.extFlags) ∧ pp'.maxPayload = (if t == TYPE_OPT then 512 else pp.maxPayload) ∧
-      pp'.offsetEdns = (if t == TYPE_OPT then none else if optLt c.offset pp.offsetEdns then pp.offsetEdns.map (fun x => shiftNat x (-(Int.ofNat rc.length))) else pp.offsetEdns) := by
+      pp'.offsetEdns = (if t == TYPE_OPT then none else if optLt c.offset pp.offsetEdns then pp.offsetEdns.map (fun x => shiftNat x (-(Int.ofNat rc.length))) else pp.offsetEdns) ∧
+      pp'.cached = none := by
   have hlen := P.len
   have hRl : P.R.length = R1.length + R2.length + 1 := by rw [hsplit]; simp; omega
   have hRf : P.R.flatten.length = R1.flatten.length + rc.length + R2.flatten.length := by rw [hsplit]; simp; omega
@@ -500,7 +505,7 @@ theorem delete_additional {pp : PP} (P : PlainObj pp) (R1 R2 : List Bytes) (rc :
   obtain ⟨o4', hR1, _⟩ := pieces_remove hR0
   refine ⟨_, ⟨hdr', P.q4, P.qls, P.A, P.N, R1 ++ R2, P.o2, P.o3, o4', hh', ?_, P.hgq, P.hq4, P.hcl,
     P.hA, P.hN, hR1, ?_, ?_, by rw [hg6]; simp; omega, ?_, ?_, ?_, ?_, ?_, ?_, ?_⟩,
-    hrun, rfl, rfl, rfl, rfl, rfl, hgo, ?_, ?_, ?_, ?_, ?_, ?_⟩
+    hrun, rfl, rfl, rfl, rfl, rfl, hgo, ?_, ?_, ?_, ?_, ?_, ?_, ?_⟩
   · rw [hgo 4 (by omega)]; exact P.hqd
   · rw [hgo 6 (by omega)]; exact P.hca
   · rw [hgo 8 (by omega)]; exact P.hcn
@@ -525,5 +530,6 @@ theorem delete_additional {pp : PP} (P : PlainObj pp) (R1 R2 : List Bytes) (rc :
   · rw [f12]
   · rw [f13]
   · rw [f8]
+  · rw [f3]
 
 end Dns
